@@ -197,7 +197,10 @@ def expected_same(T, facts):
         if name in PLAIN_MESSAGE_BUILTINS:
             return True
         return None
-    return not user_init
+    if user_init:
+        return False
+    # a user class that adds no initialiser: it takes a plain message iff its nearest builtin base does
+    return True if nearest in PLAIN_MESSAGE_BUILTINS else None
 
 
 def created_kind(T0, e1):
@@ -430,7 +433,9 @@ def _analyse(built, path, obs, out, want_corr):
             out['detail'] = u['frames'][0][0]
             return out
     if not c['has_md']:
-        out['fails'].append({'what': 'exception from converted code carries no ag_error_metadata', 'cls': None, 'oracle': 'metadata'})
+        out['fails'].append({'what': 'original %s(%r): the exception reaching the caller is %s(%r) and carries no ag_error_metadata '
+                                     '(type rule, message and location lost)' % (o['type_name'], o['str'][:80], c['type_name'], c['str'][:120]),
+                             'cls': None, 'oracle': 'metadata'})
         return out
     if not obs['stack_calls']:
         out['fails'].append({'what': 'ag_error_metadata present but _stack_trace_inside_mapped_code was never called', 'cls': None, 'oracle': 'metadata'})
@@ -455,7 +460,7 @@ def _analyse(built, path, obs, out, want_corr):
     want = expected_same(T0, facts)
     ok_type = (kind in ('same', 'keyerror')) if want is True else (kind == 'staging') if want is False else kind in ('same', 'keyerror', 'staging')
     if not ok_type:
-        cls = 'inherits_builtin_init' if (facts[1] and not facts[4] and facts[5] != 'Exception') else None
+        cls = 'inherits_builtin_init' if (facts[1] and not facts[4] and facts[5] != 'Exception' and facts[5] in PLAIN_MESSAGE_BUILTINS) else None
         out['fails'].append({'what': 'exception type: original %s (takes a plain message, no initialiser of its own: %s) re-raised as %s'
                                      % (o['type_name'], want, c['type_name']), 'cls': cls, 'oracle': 'type', 'facts': list(facts)})
     # ---------------- O3: message ----------------
